@@ -30,6 +30,8 @@ DECIDED = [
     "C11.3 step order of Reparsable.parse_next_batch and of get_parser; the user dictionary is the last step for flat nodes and composite nodes",
     "C11.4 explicit nets vs nets restriction: rejected in both orders",
     "C11.5 the plugins do not swallow parser errors",
+    "C11.6 restrictions accumulate by whole lines on nodes and objects alike",
+    "C11.7 a restriction that selects nothing raises EmptyCartesianProduct (detection on by default, switched off only for the internal peek)",
 ]
 NOT_DECIDED = ["equality of the selected set with the Cartesian parser's for equivalent restrictions", "the 'only a only b' == 'a..b' equivalence (parser semantics)"]
 MIN_INSTANCES = 14
@@ -323,6 +325,34 @@ def conflict_symmetry(ctx: Ctx, rule: str) -> None:
                "" if ok else f"conflicting net selections are rejected in one order only: {raises}")
 
 
+def empty_product_detection(ctx: Ctx, rule: str) -> None:
+    """A restriction that selects nothing is rejected (EmptyCartesianProduct), never read as 'no restriction'."""
+    from ..kinds import call_sites, signature_defaults
+
+    signature_defaults(ctx, rule, {"params_parser.py:Reparsable.get_parser": {"show_empty_cartesian_product": "True"}}, "empty Cartesian products are detected by default")
+    off = []
+    for f, c in call_sites(ctx.repo, "get_parser"):
+        for k in c.keywords:
+            if k.arg == "show_empty_cartesian_product" and ast.unparse(k.value) != "True":
+                if not (f is not None and f.ref == "params_parser.py:Reparsable.get_parser"):
+                    off.append((f.ref if f else None, ast.unparse(c)))
+    ctx.record(rule + "c", "OWNER", "avocado_i2n", "empty-product detection is switched off only for get_parser's own internal peek", not off, {"sites": off},
+               "" if not off else f"a restriction matching nothing is silently accepted: {off[0]}")
+    f = ctx.repo.func("params_parser.py:Reparsable.get_parser")
+    ctx.touch(f.ref)
+    raises = [r for r in ast.walk(f.node) if isinstance(r, ast.Raise) and PathEnum._raised_name(r) == "EmptyCartesianProduct"]
+    hs = [h for t in ast.walk(f.node) if isinstance(t, ast.Try) for h in t.handlers if ast.unparse(h.type) == "StopIteration"]
+    ok = len(raises) == 1 and len(hs) == 1 and any(r is x for r in raises for x in ast.walk(hs[0]))
+    ctx.record(rule + "r", "TABLE", f.ref, "no first variant (StopIteration on the peek) -> EmptyCartesianProduct", ok, {}, "" if ok else "an empty Cartesian product no longer raises")
+    g = ctx.repo.func("params_parser.py:all_suffixes_by_restriction")
+    ctx.touch(g.ref)
+    body = [ast.unparse(s_) for s_ in g.node.body if not (isinstance(s_, ast.Expr) and isinstance(s_.value, ast.Constant))]
+    ok2 = body == ["rep = Reparsable()", "rep.parse_next_file(f'{key}.cfg')", "rep.parse_next_str(restriction)", "parser = rep.get_parser()",
+                   "return [d['shortname'] for d in parser.get_dicts()]"]
+    ctx.record(rule + "n", "PROV", g.ref, "nets restriction -> suffixes: <key>.cfg, then the restriction, parser with empty-product detection, every variant's shortname", ok2, {"body": body},
+               "" if ok2 else "the resolution of a nets restriction into suffixes changed")
+
+
 def error_handling(ctx: Ctx, rule: str) -> None:
     for fref in ("plugins/manu.py:Manu.run", "plugins/auto.py:Auto.run"):
         fn = ctx.repo.func(fref)
@@ -351,6 +381,7 @@ def run(ctx: Ctx) -> None:
     }, "omitted configuration steps are skipped, not replaced")
     ctx.call(conflict_symmetry, "4")
     ctx.call(error_handling, "5")
+    ctx.call(empty_product_detection, "7")
     from . import graphrules as GR
 
     ctx.call(GR.restriction_updates, "6")
@@ -368,5 +399,6 @@ MUTANTS = [
     ("unselected-vms-kept", CMD, "        if vm_name not in with_selected_vms:\n            del config[\"vm_strs\"][vm_name]", "        if vm_name not in with_selected_vms:\n            pass", "2x"),
     ("comma-kept", CMD, "            # NOTE: comma on the command line is space in a config file\n            value = value.replace(\",\", \" \")", "            # NOTE: comma on the command line is space in a config file", "1"),
     ("manu-swallows-errors", "plugins/manu.py", "            LOG_UI.error(error)\n            return 1\n        intertest.load_addons_tools()", "            LOG_UI.error(error)\n        intertest.load_addons_tools()", "5"),
+    ("empty-nets-accepted", "params_parser.py", "    rep.parse_next_str(restriction)\n    parser = rep.get_parser()", "    rep.parse_next_str(restriction)\n    parser = rep.get_parser(show_empty_cartesian_product=False)", "7"),
     ("P-key-order", CMD, "        if key == \"only\" or key == \"no\":", "        if key == \"no\" or key == \"only\":", None),
 ]
